@@ -237,6 +237,25 @@ func (s *Sched) exit(t *Thread) {
 	s.poke()
 }
 
+// RecoverGo is deferred (by the overlay) at the top of every goroutine the package starts: a
+// panic is recorded as a verdict of the execution instead of killing the worker process.
+func RecoverGo() {
+	r := recover()
+	if r == nil {
+		return
+	}
+	s := Active()
+	if s == nil {
+		panic(r)
+	}
+	buf := make([]byte, 16384)
+	n := runtime.Stack(buf, false)
+	s.mu.Lock()
+	s.out.Panics = append(s.out.Panics, fmt.Sprintf("goroutine %s: %v\n%s", role(), r, buf[:n]))
+	s.mu.Unlock()
+	s.poke()
+}
+
 // Poke wakes the scheduler if it is waiting for virtual time to pass.
 func (s *Sched) Poke() { s.poke() }
 
